@@ -23,7 +23,9 @@ def parseEvent? (tok : String) : Option Ev :=
   | ["f", f, n, tag] => do let f ← f.toNat?; let n ← n.toNat?; pure (.enqueue (floodItems f n tag))
   | ["r", rid, cid, exp] => do let rid ← rid.toNat?; let exp ← parseIds? exp; pure (.recv rid cid exp false)
   | ["r", rid, cid, exp, "p"] => do let rid ← rid.toNat?; let exp ← parseIds? exp; pure (.recv rid cid exp true)
+  | ["r", rid, cid, exp, "g"] => do let rid ← rid.toNat?; let exp ← parseIds? exp; pure (.recvHeld rid cid exp)
   | ["c", rid] => do let rid ← rid.toNat?; pure (.cancel rid)
+  | ["u", rid] => do let rid ← rid.toNat?; pure (.release rid)
   | ["x"] => some .close
   | _ => none
 
@@ -112,6 +114,7 @@ def deliveries (evs : List Ev) : List (Nat × String × String) :=
 def recvOf (evs : List Ev) (rid : Nat) : Option (String × List Nat) :=
   evs.findSome? fun
     | .recv r cid exp _ => if r = rid then some (cid, exp) else none
+    | .recvHeld r cid exp => if r = rid then some (cid, exp) else none
     | _ => none
 
 def sameSet (a b : List Nat) : Bool := a.all (b.contains ·) && b.all (a.contains ·)
@@ -264,8 +267,12 @@ def expandLetter (m : Macro) (i : Nat) (cid : String) (st : Expand × Option Nat
   | 'w' => push (.enqueue [.msg 3 (cid ++ "/") (lifePayload i 3)])
   | 'r' => ({ evs := e.evs.push (.recv (macroRidBase + e.next) cid m.exp false), next := e.next + 1 }, some (macroRidBase + e.next))
   | 'p' => ({ evs := e.evs.push (.recv (macroRidBase + e.next) cid m.exp true), next := e.next + 1 }, some (macroRidBase + e.next))
+  | 'g' => ({ evs := e.evs.push (.recvHeld (macroRidBase + e.next) cid m.exp), next := e.next + 1 }, some (macroRidBase + e.next))
   | 'k' => match last with
     | some rid => push (.cancel rid)
+    | none => st
+  | 'u' => match last with
+    | some rid => push (.release rid)
     | none => st
   | _ => st
 
@@ -398,6 +405,12 @@ def handle (op : String) (args : List String) (rhs : String) : Verdict :=
     match parseIds? ms, bs.toNat? with
     | some members, some bound => checkLife { members, bound } toks rhs
     | _, _ => .unsupported "args"
+  | "race", [_ms, _bs, rounds] =>
+    -- every round: both messages of an attached receive are deposited, nothing is poisoned, far
+    -- below the bound: the receive completes under every interleaving (`progress_complete`)
+    match rounds.toNat? with
+    | some n => spec "deadlock" ("ok=" ++ toString n ++ ";bad=-") rhs
+    | none => .unsupported "args"
   | "send", [path, cid, msgs] =>
     match parseMap? msgs with
     | none => .unsupported "args"
